@@ -1,6 +1,6 @@
 (** C12 - export files sit at the documented location with exactly the declared length.  Statements only. *)
 From TB Require Import Base Decimal BencodeModel TorrentModel TorrentProofs PathModel FsModel SolverModel FinderModel RunModel
-                       SolverProofs RunProofs FsProofs FaultProofs PreludeProofs TableProofs Generated GeneratedObligations.
+                       SolverProofs RunProofs FsProofs FaultProofs PreludeProofs TableProofs Generated GeneratedObligations SystemModel SystemProofs GlueProofs RunExample.
 Local Open Scope N_scope.
 
 Theorem C12_single_file_location export ih name :
@@ -35,9 +35,20 @@ Proof. exact (subtrees_disjoint export ih1 ih2 p). Qed.
 Theorem C12_resize_length b n : length (resize b n) = n.
 Proof. unfold resize. rewrite app_length, firstn_length, repeat_length. lia. Qed.
 
+(** WHOLE RUN: whatever exists in a reachable state and did not exist when scanning started is a
+    directory on the way to the export image of a non-padding entry, or such an export image - so
+    no other file appears and padding files are never created. *)
+Theorem C12_whole_run_creates_only_export_images H content export ts ix es ws f0 pool0 s p n :
+  run_setup H content export ts ix es ws f0 pool0 -> sreach {| s_fs := f0; s_pool := pool0 |} s ->
+  fs_lookup f0 p = None -> fs_lookup (s_fs s) p = Some n ->
+  (n = NDir /\ exists e, nonpad es e /\ In p (prefixes (parent (e_target e)))) \/
+  (exists e i, nonpad es e /\ p = e_target e /\ n = NFile i /\ fresh_ino f0 <= i).
+Proof. exact (whole_run_created H content export ts ix es ws f0 pool0 s p n). Qed.
+
 Print Assumptions C12_single_file_location.
 Print Assumptions C12_multi_file_location.
 Print Assumptions C12_dir_name_length.
 Print Assumptions C12_only_targets_declared_length.
 Print Assumptions C12_subtrees_disjoint.
 Print Assumptions C12_resize_length.
+Print Assumptions C12_whole_run_creates_only_export_images.
